@@ -3,7 +3,8 @@ C04 (growth `c04split`) — the non-redundancy clause PER CHROMOSOME.  Every oth
 `GraphBasedModelConstructor` (one read cluster or one SUB-REGION of a cluster cut by `split_coverage_regions`); the statement
 ("the intron chain differs from that of every other reported novel transcript on the same strand") speaks about the chromosome.
 Model: IsoVerif/Model/ChromosomeModels.lean (`runChromosome`: the constructors of one chromosome task in order, sharing
-`detected_known_isoforms`, the id distributor and — since the fix — `reported_novel_chains`).
+`detected_known_isoforms`, the id distributor and — since fix b2b4dd9 — `reported_novel_chains`; round `c04rep`: a dict chain → id of
+the model reported first, so that the reads of a repeated chain stay listed and counted under that id).
 Property theorems only (helper lemmas: IsoVerif/Lemmas/ChromosomeModels.lean).
 -/
 import IsoVerif.Model.ChromosomeModels
@@ -19,16 +20,17 @@ def ChainsDistinctPerChromosome (reps : List Store) : Prop := (chrKeys reps).Nod
 /-- the clause for ONE constructor (what `chains_distinct_among_novel_partial` / `C04Similar` are about) -/
 def ChainsDistinctPerConstructor (s : Store) : Prop := (reportKeys s.models).Nodup
 
-/-! ### the repaired code -/
+/-! ### the current code: non-redundancy -/
 
-/-- **chains_distinct_per_chromosome.** The repaired chromosome task (both class-level sets cleared, any id source, any
+/-- **chains_distinct_per_chromosome.** The current chromosome task (both class-level containers cleared, any id source, any
     number of (sub-)regions, any heuristic answers inside every constructor): if no constructor reports a chain twice BY
     ITSELF (the per-constructor clause; its only known failing class is `monointron_apa_duplicates`), then no (strand, intron
     chain) is reported twice on the chromosome — whatever alignments were handed to several sub-regions. -/
 theorem chains_distinct_per_chromosome (next : Nat → Nat) (regs : List RegionIn) (cs' : ChrState) (reps : List Store)
     (h : runChromosomeFixed next regs ChrState.init [] = some (cs', reps))
     (hper : ∀ s ∈ reps, ChainsDistinctPerConstructor s) : ChainsDistinctPerChromosome reps :=
-  (runChromosome_fixed_inv next regs ChrState.init [] cs' reps h (by intro k; simp [ChrState.init, chrKeys])).2
+  (runChromosome_fixed_inv next regs ChrState.init [] cs' reps h (by intro k; simp [ChrState.init, chrKeys, chainKeys])
+      (by intro p hp; simp [ChrState.init] at hp)).2.2
     (by simp [chrKeys]) hper
 
 /-- **chains_distinct_per_chromosome_iff.** … and conversely: the chromosome run adds NO duplicate of its own — the clause
@@ -46,94 +48,190 @@ theorem chains_distinct_per_chromosome_iff (next : Nat → Nat) (regs : List Reg
   rw [this, List.nodup_append] at h2
   exact h2.1
 
-/-- **reported_set_is_reported_keys.** At every point of the repaired chromosome task `reported_novel_chains` holds exactly
-    the (strand, chain) keys of the novel spliced models REPORTED so far: a model is only ever dropped in favour of a twin that
-    is in the output (no chain is lost, see `no_chain_lost`), and nothing else enters the set. -/
+/-- **reported_set_is_reported_keys.** At every point of the chromosome task the keys of `reported_novel_chains` are exactly the
+    (strand, chain) keys of the novel spliced models REPORTED so far: a model is only ever withheld in favour of a twin that
+    is in the output (no chain is lost, see `no_chain_lost`), and nothing else enters the dict. -/
 theorem reported_set_is_reported_keys (next : Nat → Nat) (regs : List RegionIn) (cs' : ChrState) (reps : List Store)
     (h : runChromosomeFixed next regs ChrState.init [] = some (cs', reps)) :
-    ∀ k, k ∈ cs'.reported ↔ k ∈ chrKeys reps :=
-  (runChromosome_fixed_inv next regs ChrState.init [] cs' reps h (by intro k; simp [ChrState.init, chrKeys])).1
+    ∀ k, k ∈ chainKeys cs'.reported ↔ k ∈ chrKeys reps :=
+  (runChromosome_fixed_inv next regs ChrState.init [] cs' reps h (by intro k; simp [ChrState.init, chrKeys, chainKeys])
+      (by intro p hp; simp [ChrState.init] at hp)).1
 
-/-- **no_chain_lost.** The new step deletes a model only if its key is in the set handed over by the earlier constructors;
+/-- **reported_ids_name_reported_models** (round `c04rep`).  Every VALUE of the dict is the transcript id of a novel spliced
+    model that IS in the output of the chromosome, with exactly that (strand, chain): the id a later constructor lists and
+    counts the reads of a repeated chain under is the id of the model `transcript_models.gtf` shows for the chain. -/
+theorem reported_ids_name_reported_models (next : Nat → Nat) (regs : List RegionIn) (cs' : ChrState) (reps : List Store)
+    (h : runChromosomeFixed next regs ChrState.init [] = some (cs', reps)) :
+    ∀ p ∈ cs'.reported, ∃ s ∈ reps, ∃ m ∈ s.models, isSplicedNovel m = true ∧ chainKey m = p.1 ∧ m.tid = p.2 :=
+  (runChromosome_fixed_inv next regs ChrState.init [] cs' reps h (by intro k; simp [ChrState.init, chrKeys, chainKeys])
+      (by intro p hp; simp [ChrState.init] at hp)).2.1
+
+/-- **no_chain_lost.** A model is withheld only if its key is in the dict handed over by the earlier constructors;
     every other novel spliced model that passed `filter_transcripts` is reported by this constructor, with its chain. -/
-theorem no_chain_lost (reported rep' : List ChainKey) (r : RegionIn) (s5 s : Store)
-    (h : regionTail true reported r s5 = some (s, rep')) :
-    ∀ m ∈ s5.models, isSplicedNovel m = true → chainKey m ∈ reported ∨ chainKey m ∈ reportKeys s.models := by
+theorem no_chain_lost (reported rep' : ChainMap) (r : RegionIn) (s5 s : Store)
+    (h : regionTail .keepReads reported r s5 = some (s, rep')) :
+    ∀ m ∈ s5.models, isSplicedNovel m = true → chainKey m ∈ chainKeys reported ∨ chainKey m ∈ reportKeys s.models := by
   intro m hm hsn
   obtain ⟨hk, _, _⟩ := regionTail_fixed_spec h
-  by_cases hin : chainKey m ∈ reported
+  by_cases hin : chainKey m ∈ chainKeys reported
   · exact Or.inl hin
   · refine Or.inr ?_
     rw [hk]
     exact mem_reportKeys.2 ⟨m, List.mem_filter.2 ⟨hm, by simp [keepModel, hsn, hin]⟩, hsn, rfl⟩
 
-/-- **unsplit_region_unchanged.** Safety of the repair: a constructor none of whose novel spliced models repeats a chain
-    reported by an EARLIER constructor dumps exactly the storage the code before the fix dumps (same models, same
-    `transcript_model_reads` bookkeeping); only the class-level set differs.  Read clusters are disjoint intervals and every
+/-- **unsplit_region_unchanged.** Safety of both repairs: a constructor none of whose novel spliced models repeats a chain
+    reported by an EARLIER constructor dumps exactly the storage the code before fix b2b4dd9 dumps (same models, same
+    `transcript_model_reads` bookkeeping); only the class-level dict differs.  Read clusters are disjoint intervals and every
     intron of a model lies inside its cluster, so this covers every cluster that is not cut. -/
 theorem unsplit_region_unchanged (next : Nat → Nat) (cs : ChrState) (r : RegionIn) (st2 : FLState) (s5 : Store)
     (hh : regionHead next cs r = some (st2, s5))
-    (hfresh : ∀ m ∈ s5.models, isSplicedNovel m = true → chainKey m ∉ cs.reported) :
-    (processRegion true next cs r).map (·.2) = (processRegion false next cs r).map (·.2) := by
-  have hall : ∀ m ∈ s5.models, keepModel cs.reported m = true := by
+    (hfresh : ∀ m ∈ s5.models, isSplicedNovel m = true → chainKey m ∉ chainKeys cs.reported) :
+    (processRegion .keepReads next cs r).map (·.2) = (processRegion .none next cs r).map (·.2) := by
+  have hall : ∀ m ∈ s5.models, keepModel (chainKeys cs.reported) m = true := by
     intro m hm
     unfold keepModel
     cases hsn : isSplicedNovel m with
     | false => simp
     | true => simp [hfresh m hm hsn]
-  have hd : s5.dropReported cs.reported = some (s5, keyUnion cs.reported (reportKeys s5.models)) := by
-    unfold Store.dropReported
-    rw [dropLoop_all_kept _ _ _ _ hall]
-    simp
-  simp only [processRegion, hh, regionTail, hd, if_true, Bool.false_eq_true, if_false, Option.map_some]
+  have hf : s5.models.filter (keepModel (chainKeys cs.reported)) = s5.models := List.filter_eq_self.2 hall
+  have hd : s5.dropKeep cs.reported = some (s5, s5.models, mapUpdate cs.reported s5.models) := by
+    unfold Store.dropKeep
+    rw [dropLoopR_all_kept _ _ _ _ _ hall]
+    have htrue : ∀ l : List TModel, l.filter (fun _ => true) = l := fun l => List.filter_eq_self.2 (by simp)
+    simp [finalModels, List.filter_map, Function.comp_def, List.map_map, htrue]
+  simp only [processRegion, hh, regionTail, hd, Option.map_some, assignReads_models]
 
-/-- **first_region_unchanged.** In particular the first constructor of a chromosome (empty set) is never affected. -/
+/-- **first_region_unchanged.** In particular the first constructor of a chromosome (empty dict) is never affected. -/
 theorem first_region_unchanged (next : Nat → Nat) (det : List String) (idv : Nat) (r : RegionIn) :
-    (processRegion true next ⟨det, idv, []⟩ r).map (·.2) = (processRegion false next ⟨det, idv, []⟩ r).map (·.2) := by
+    (processRegion .keepReads next ⟨det, idv, []⟩ r).map (·.2) = (processRegion .none next ⟨det, idv, []⟩ r).map (·.2) := by
   cases hh : regionHead next ⟨det, idv, []⟩ r with
   | none => simp [processRegion, hh]
   | some p =>
     obtain ⟨st2, s5⟩ := p
-    exact unsplit_region_unchanged next _ r st2 s5 hh (by intro m _ _; simp)
+    exact unsplit_region_unchanged next _ r st2 s5 hh (by intro m _ _; simp [chainKeys])
 
-/-- **drop_keeps_bookkeeping.** `drop_novel_chains_reported_elsewhere` deletes through `delete_from_storage`, so the
-    invariants behind the `transcript_model_reads` clauses survive it: lines name stored models only (`R2TInv`), counters
-    stay below the read lists (`CounterLe`), the kept models are a sub-list, and a kept model keeps its counter and its reads
-    (so `has_supporting_read` carries over: the count that passed `filter_transcripts` is still there). -/
-theorem drop_keeps_bookkeeping (s s' : Store) (reported rep' : List ChainKey)
-    (h : s.dropReported reported = some (s', rep')) :
-    s'.models.Sublist s.models ∧ (R2TInv s → R2TInv s') ∧ (CounterLe s → CounterLe s') ∧
-    ((ids s.models).Nodup → ∀ m ∈ s'.models,
-        cnt s'.counter m.tid = cnt s.counter m.tid ∧ readsIn s'.readIds m.tid = readsIn s.readIds m.tid) := by
-  obtain ⟨hm, _, D, hcov, hsh, hnD⟩ := dropReported_spec h
-  refine ⟨by rw [hm]; exact List.filter_sublist, ?_, fun hc => hsh.counterLe hc, ?_⟩
-  · intro hinv q hq hne
-    rcases hsh.entries q hq with h1 | ⟨h1, h2⟩
-    · exact absurd h1 hne
-    · have := hinv q h1 hne
-      simp only [ids, List.mem_map] at this ⊢
-      obtain ⟨m, hmm, hmt⟩ := this
-      rcases hcov m hmm with h3 | h3
-      · exact ⟨m, h3, hmt⟩
-      · rw [hmt] at h3; exact absurd h3 h2
-  · intro hnd m hmem
-    have := hnD hnd m hmem
-    rw [hsh.counter, hsh.reads]
-    simp [this]
+/-- **same_models_as_b2b4dd9** (round `c04rep`).  The repair of the repair changes NO model and no entry key: on every record on
+    which both run through, the current code dumps the model list fix b2b4dd9 dumps and hands on the same dict — what differs
+    is only `transcript_read_ids` / `internal_counter` / `read_assignment_counts`, i.e. `transcript_model_reads` and the counts. -/
+theorem same_models_as_b2b4dd9 (next : Nat → Nat) (cs cs1 cs2 : ChrState) (r : RegionIn) (s1 s2 : Store)
+    (h1 : processRegion .keepReads next cs r = some (cs1, s1)) (h2 : processRegion .dropOnly next cs r = some (cs2, s2)) :
+    cs1 = cs2 ∧ s1.models = s2.models := by
+  unfold processRegion at h1 h2
+  cases hh : regionHead next cs r with
+  | none => simp [hh] at h1
+  | some p =>
+    obtain ⟨st2, s5⟩ := p
+    simp only [hh] at h1 h2
+    split at h1
+    · simp at h1
+    · rename_i sa ra hta
+      split at h2
+      · simp at h2
+      · rename_i sb rb htb
+        simp only [Option.some.injEq, Prod.mk.injEq] at h1 h2
+        obtain ⟨rfl, rfl⟩ := h1
+        obtain ⟨rfl, rfl⟩ := h2
+        obtain ⟨_, _, hm1, hr1⟩ := regionTail_fixed_spec hta
+        obtain ⟨hm2, hr2⟩ := regionTail_b2b4_spec htb
+        exact ⟨by rw [hr1, hr2], by rw [hm1, hm2]⟩
 
-/-- **supporting_read_after_drop.** The clause "≥ 1 read in `transcript_model_reads`" through the repaired tail of `process()`:
+/-! ### the current code: the reads of a repeated chain (round `c04rep`) -/
+
+/-- **repeated_chain_takes_first_id.** The renaming step itself: the whole read list and the counter of the local copy move to
+    the id of the model reported first, and `read_assignment_counts` is not touched (`delete_from_storage`, the step of fix
+    b2b4dd9, empties the list and decrements the count of each of its reads: `reads_lost_b2b4dd9_witness`). -/
+theorem repeated_chain_takes_first_id (s s' : Store) (old first : String) (h : s.renameTid old first = some s') :
+    readsIn s'.readIds first = readsIn s.readIds old ∧ cnt s'.counter first = cnt s.counter old ∧ s'.rcount = s.rcount := by
+  obtain ⟨_, h0, h1, h2⟩ := renameTid_spec h
+  refine ⟨?_, ?_, h0⟩
+  · rw [h2]; simp
+  · rw [h1]; simp
+
+/-- **repeated_chain_keeps_reads** (round `c04rep`, the clause at the level of one constructor, all inputs).  A novel spliced model
+    `m` that passed `filter_transcripts` and whose (strand, chain) the dict maps to `first` — the id of the model an earlier
+    constructor reported: after the step `first` carries exactly `m`'s counter and `m`'s read list, and after the second
+    `assign_reads_to_models` (ANY assigner answers) every one of those reads is printed in `transcript_model_reads` under `first`.
+    Hypotheses: the per-constructor clause (no chain twice in this storage) and what the shared, monotone id distributor gives
+    (C17): distinct ids in the storage, the ids in the dict are not among them, different chains of the dict have different ids. -/
+theorem repeated_chain_keeps_reads (s5 s6 : Store) (reported rep' : ChainMap) (final : List TModel)
+    (hper : ChainsDistinctPerConstructor s5) (hnd : (ids s5.models).Nodup)
+    (hfirst : ∀ p ∈ reported, p.2 ∉ ids s5.models)
+    (hinj : ∀ p ∈ reported, ∀ q ∈ reported, p.2 = q.2 → p.1 = q.1)
+    (h : s5.dropKeep reported = some (s6, final, rep'))
+    (m : TModel) (first : String) (hm : m ∈ s5.models) (hsn : isSplicedNovel m = true)
+    (hg : amGet? reported (chainKey m) = some first) (ins : List AssignIn) :
+    cnt s6.counter first = cnt s5.counter m.tid ∧ readsIn s6.readIds first = readsIn s5.readIds m.tid ∧
+    ∀ r ∈ readsIn s5.readIds m.tid, (r, first) ∈ (s6.assignReads ins).dumpR2T := by
+  unfold Store.dropKeep at h
+  split at h
+  · simp at h
+  · rename_i s1 kept hl
+    have hmv := dropLoopR_moves_reads reported hinj m first hsn hg s5.models s5 [] [] s1 kept hl hm hnd hper (by simp) hfirst
+    simp only [Option.some.injEq, Prod.mk.injEq] at h
+    obtain ⟨rfl, _, _⟩ := h
+    refine ⟨hmv.1, hmv.2, ?_⟩
+    intro r hr
+    have hg' := (assignReads_grow { s1 with models := kept.map (·.2) } ins).reads first
+    refine mem_dump_of_reads (hg'.subset ?_)
+    show r ∈ readsIn s1.readIds first
+    rw [hmv.2]; exact hr
+
+/-- **drop_keeps_read_counts.** Under the per-constructor clause (the constructor holds no (strand, chain) twice) the current
+    `drop_novel_chains_reported_elsewhere` leaves `read_assignment_counts` exactly as it found it — for ANY dict handed over:
+    a read that was listed under a model that passed `filter_transcripts` is not turned into a `*` line
+    (`dumpR2T` prints `*` for the reads whose count is 0) and is not offered to the assigner again. -/
+theorem drop_keeps_read_counts (s5 s6 : Store) (reported rep' : ChainMap) (final : List TModel)
+    (hper : ChainsDistinctPerConstructor s5) (h : s5.dropKeep reported = some (s6, final, rep')) :
+    s6.rcount = s5.rcount := by
+  unfold Store.dropKeep at h
+  split at h
+  · simp at h
+  · rename_i s1 kept hl
+    simp only [Option.some.injEq, Prod.mk.injEq] at h
+    have hrc := dropLoopR_rcount reported s5.models s5 [] [] s1 kept hl hper (by simp)
+    obtain ⟨rfl, _, _⟩ := h
+    exact hrc
+
+/-- **drop_keeps_bookkeeping.** The step keeps `internal_counter[t] ≤ |transcript_read_ids[t]|`, dumps a sub-list of the
+    models, and a model that is dumped keeps its counter and its read list — provided the ids handed over in the dict are not
+    ids of this constructor's storage (the distributor is shared and monotone: C17) and the ids of the storage are distinct. -/
+theorem drop_keeps_bookkeeping (s5 s6 : Store) (reported rep' : ChainMap) (final : List TModel)
+    (h : s5.dropKeep reported = some (s6, final, rep')) :
+    final.Sublist s5.models ∧ (CounterLe s5 → CounterLe s6) ∧
+    ((ids s5.models).Nodup → (∀ p ∈ reported, p.2 ∉ ids s5.models) → ∀ m ∈ final,
+        cnt s6.counter m.tid = cnt s5.counter m.tid ∧ readsIn s6.readIds m.tid = readsIn s5.readIds m.tid) := by
+  obtain ⟨hf, _⟩ := dropKeep_spec h
+  unfold Store.dropKeep at h
+  split at h
+  · simp at h
+  · rename_i s1 kept hl
+    simp only [Option.some.injEq, Prod.mk.injEq] at h
+    have hcl := dropLoopR_counterLe reported s5.models s5 [] [] s1 kept hl
+    have hfr := fun tid h1 h2 => dropLoopR_frame reported tid h1 s5.models s5 [] [] s1 kept hl h2
+    obtain ⟨rfl, _, _⟩ := h
+    refine ⟨by rw [hf]; exact List.filter_sublist, hcl, ?_⟩
+    intro hnd hfirst m hm
+    rw [hf, List.mem_filter] at hm
+    refine hfr m.tid ?_ ?_
+    · intro p hp heq
+      exact hfirst p hp (by rw [heq]; exact List.mem_map.2 ⟨m, hm.1, rfl⟩)
+    · intro x hx hxt
+      rw [eq_of_nodup_ids hnd hx hm.1 hxt]
+      exact hm.2
+
+/-- **supporting_read_after_drop.** The clause "≥ 1 read in `transcript_model_reads`" through the current tail of `process()`:
     a non-known model that is dumped had at least `min_novel_count ≥ 1` reads counted when `filter_transcripts` kept it, and
-    neither the drop nor the second `assign_reads_to_models` takes a read away from a kept model. -/
-theorem supporting_read_after_drop (s5 s6 : Store) (reported rep' : List ChainKey) (ins : List AssignIn) (minCount : Int)
-    (hpos : 1 ≤ minCount) (hnd : (ids s5.models).Nodup) (hle : CounterLe s5)
+    neither the step nor the second `assign_reads_to_models` takes a read away from a dumped model. -/
+theorem supporting_read_after_drop (s5 s6 : Store) (reported rep' : ChainMap) (final : List TModel) (ins : List AssignIn)
+    (minCount : Int) (hpos : 1 ≤ minCount) (hnd : (ids s5.models).Nodup) (hle : CounterLe s5)
+    (hfirst : ∀ p ∈ reported, p.2 ∉ ids s5.models)
     (hcount : ∀ m ∈ s5.models, m.ttype ≠ .known → minCount ≤ cnt s5.counter m.tid)
-    (h : s5.dropReported reported = some (s6, rep')) :
-    ∀ m ∈ (s6.assignReads ins).models, m.ttype ≠ .known → ∃ r, (r, m.tid) ∈ (s6.assignReads ins).dumpR2T := by
-  obtain ⟨hsub, _, hc, hkeep⟩ := drop_keeps_bookkeeping s5 s6 reported rep' h
+    (h : s5.dropKeep reported = some (s6, final, rep')) :
+    ∀ m ∈ final, m.ttype ≠ .known → ∃ r, (r, m.tid) ∈ (s6.assignReads ins).dumpR2T := by
+  obtain ⟨hsub, hc, hkeep⟩ := drop_keeps_bookkeeping s5 s6 reported rep' final h
   have hg := assignReads_grow s6 ins
   intro m hm hnovel
-  rw [hg.models] at hm
-  have h1 := (hkeep hnd m hm).1
+  have h1 := (hkeep hnd hfirst m hm).1
   have h2 := hcount m (hsub.subset hm) hnovel
   have hle2 := hc hle m.tid
   have hlen' : 1 ≤ (readsIn (s6.assignReads ins).readIds m.tid).length := by
@@ -202,17 +300,19 @@ theorem chains_distinct_per_chromosome_orig_false :
     rw [hk] at this
     simp at this
 
-/-- non-vacuity of `chains_distinct_per_chromosome` and regression of the fix: on the same input the repaired code reports
-    the chain once; the second sub-region drops its copy, lists its three reads with `*` and hands the id counter on -/
+/-- non-vacuity of `chains_distinct_per_chromosome` and regression of both fixes: on the same input the current code reports
+    the chain once, the dict names the first model, the second sub-region dumps no model and hands the id counter on -/
 example : (runChromosomeFixed (· + 1) splitRegions ChrState.init []).map (fun r =>
         (chrKeys r.2, r.1.reported, r.1.idv, r.2.map (fun s => (reportKeys s.models).length)))
-      = some ([(.plus, [(50, 90), (100, 200)])], [(.plus, [(50, 90), (100, 200)])], 4, [1, 0]) := by
+      = some ([(Strand.plus, [(50, 90), (100, 200)])], [((Strand.plus, [(50, 90), (100, 200)]), "transcript1.chr1.nnic")], 4, [1, 0]) := by
   decide +kernel
 
+/-- … and the three reads of the second sub-region are listed under the id of the model reported first (round `c04rep`) -/
 example : (runChromosomeFixed (· + 1) splitRegions ChrState.init []).map (fun r =>
-        r.2.map (fun s => (s.models.map (·.tid), s.dumpR2T.map (·.2))))
-      = some [(["transcript1.chr1.nnic"], ["transcript1.chr1.nnic", "transcript1.chr1.nnic", "transcript1.chr1.nnic", "*", "*", "*"]),
-              ([], ["*", "*", "*"])] := by
+        r.2.map (fun s => (s.models.map (·.tid), s.dumpR2T)))
+      = some [(["transcript1.chr1.nnic"], [("r1", "transcript1.chr1.nnic"), ("r2", "transcript1.chr1.nnic"), ("r3", "transcript1.chr1.nnic"),
+                                         ("r4", "*"), ("r5", "*"), ("r6", "*")]),
+              ([], [("r4", "transcript1.chr1.nnic"), ("r5", "transcript1.chr1.nnic"), ("r6", "transcript1.chr1.nnic")])] := by
   decide +kernel
 
 /-- non-vacuity of `unsplit_region_unchanged`: a second region with ANOTHER chain is reported as before -/
@@ -222,6 +322,92 @@ example : (runChromosomeFixed (· + 1) [exRegion [exPath],
     = (runChromosomeOrig (· + 1) [exRegion [exPath],
         exRegion [{ exPathB with path := [(VERTEX_read_start, 30), (50, 90), (VERTEX_polya, 400)] }]] ChrState.init []).map
       (fun r => chrKeys r.2) := by
+  decide +kernel
+
+/-! ### round `c04rep`: the reads of a chain reported by an earlier constructor -/
+
+instance : DecidableEq (String × ChainKey) := inferInstance
+instance : DecidableEq (List (String × ChainKey)) := inferInstance
+instance : DecidableEq (List (String × String)) := inferInstance
+instance : DecidableEq (List (List (String × String))) := inferInstance
+
+/-- (read, (strand, chain)) for every line of `transcript_model_reads` of the chromosome that names a novel spliced model of
+    `transcript_models.gtf` (ids resolved over the whole chromosome: a line may name a model dumped by an earlier constructor) -/
+def chrReadChains (reps : List Store) : List (String × ChainKey) :=
+  let table := reps.flatMap (fun s => (s.models.filter isSplicedNovel).map (fun m => (m.tid, chainKey m)))
+  reps.flatMap (fun s => s.dumpR2T.filterMap (fun p => (amGet? table p.2).map (fun k => (p.1, k))))
+
+/-- the clause at full strength for one input: cutting the cluster (several records instead of one) changes ids, not which
+    (strand, chain) a read is listed under — compared with the code before both fixes, which listed every read under the copy
+    of its own constructor -/
+def ReadsKeepTheirChain (run : (Nat → Nat) → List RegionIn → ChrState → List Store → Option (ChrState × List Store))
+    (next : Nat → Nat) (regs : List RegionIn) : Prop :=
+  (run next regs ChrState.init []).map (fun r => chrReadChains r.2) =
+    (runChromosomeOrig next regs ChrState.init []).map (fun r => chrReadChains r.2)
+
+/-- **reads_lost_b2b4dd9_witness.** The code of fix b2b4dd9 on the two sub-regions of `splitRegions` (three reads of the
+    isoform `(50,90),(100,200)` in each): the second constructor deletes its copy through `delete_from_storage`, the three reads
+    `r4 r5 r6` that supported it are printed with `*` and reach no counter — although `transcript1.chr1.nnic`, reported by the
+    first constructor, IS their isoform.  Reproduced on the real pipeline (`witness_dataset("split_region_reads")`: 3 + 12 reads,
+    12 lines `*`, `__no_feature 12`). -/
+theorem reads_lost_b2b4dd9_witness :
+    (runChromosomeB2b4 (· + 1) splitRegions ChrState.init []).map (fun r => (r.2.map (fun s => s.dumpR2T), chrReadChains r.2))
+      = some ([[("r1", "transcript1.chr1.nnic"), ("r2", "transcript1.chr1.nnic"), ("r3", "transcript1.chr1.nnic"),
+                ("r4", "*"), ("r5", "*"), ("r6", "*")],
+               [("r4", "*"), ("r5", "*"), ("r6", "*")]],
+              [("r1", (Strand.plus, [(50, 90), (100, 200)])), ("r2", (Strand.plus, [(50, 90), (100, 200)])),
+               ("r3", (Strand.plus, [(50, 90), (100, 200)]))]) := by
+  decide +kernel
+
+/-- hence the full-strength clause is FALSE of fix b2b4dd9 … -/
+theorem reads_keep_their_chain_b2b4dd9_false : ¬ ReadsKeepTheirChain runChromosomeB2b4 (· + 1) splitRegions := by
+  unfold ReadsKeepTheirChain
+  decide +kernel
+
+/-- … and holds of the current code on the same input: all six reads are listed under the chain, as before both fixes, now
+    under ONE id -/
+theorem reads_keep_their_chain_witness_input :
+    ReadsKeepTheirChain runChromosomeFixed (· + 1) splitRegions ∧
+    (runChromosomeFixed (· + 1) splitRegions ChrState.init []).map (fun r => (chrReadChains r.2).map (·.1))
+      = some ["r1", "r2", "r3", "r4", "r5", "r6"] := by
+  unfold ReadsKeepTheirChain
+  decide +kernel
+
+/-- non-vacuity of `drop_keeps_read_counts` / `drop_keeps_bookkeeping` / `supporting_read_after_drop`: a storage with the
+    repeated chain (model `a`, reads r4 r5) and a fresh model (`b`, read r7); the dict names `transcript1.chr1.nnic` -/
+def exModelA : TModel :=
+  ⟨"chr1", .plus, "a", "g", [(1, 49), (91, 99), (201, 300)], .novel_not_in_catalog, [(50, 90), (100, 200)]⟩
+def exModelB : TModel :=
+  ⟨"chr1", .plus, "b", "g", [(1, 49), (91, 300)], .novel_not_in_catalog, [(50, 90)]⟩
+def exStoreRep : Store := (Store.empty.addModel exModelA ["r4", "r5"]).addModel exModelB ["r7"]
+
+example : ChainsDistinctPerConstructor exStoreRep := by
+  unfold ChainsDistinctPerConstructor; decide +kernel
+
+example : (ids exStoreRep.models).Nodup ∧ CounterLe exStoreRep ∧
+    (∀ p ∈ [((Strand.plus, [(50, 90), (100, 200)]), "transcript1.chr1.nnic")], p.2 ∉ ids exStoreRep.models) := by
+  exact ⟨by decide +kernel, addModel_counterLe (addModel_counterLe counterLe_empty _ _) _ _, by decide +kernel⟩
+
+example : (exStoreRep.dropKeep [((Strand.plus, [(50, 90), (100, 200)]), "transcript1.chr1.nnic")]).map
+        (fun r => (r.1.readIds, r.1.counter, r.1.rcount, r.2.1.map (·.tid)))
+      = some ([("b", ["r7"]), ("transcript1.chr1.nnic", ["r4", "r5"])], [("b", 1), ("transcript1.chr1.nnic", 2)],
+              [("r4", 1), ("r5", 1), ("r7", 1)], ["b"]) := by
+  decide +kernel
+
+example : (exStoreRep.dropKeep [((Strand.plus, [(50, 90), (100, 200)]), "transcript1.chr1.nnic")]).map (fun r => r.2.2)
+      = some [((Strand.plus, [(50, 90), (100, 200)]), "transcript1.chr1.nnic"), ((Strand.plus, [(50, 90)]), "b")] := by
+  decide +kernel
+
+/-- non-vacuity of `repeated_chain_keeps_reads`: `exModelA` repeats the chain of `transcript1.chr1.nnic`; its reads r4 r5 are
+    printed under that id -/
+example : exModelA ∈ exStoreRep.models ∧ isSplicedNovel exModelA = true ∧
+    amGet? [((Strand.plus, [(50, 90), (100, 200)]), "transcript1.chr1.nnic")] (chainKey exModelA) = some "transcript1.chr1.nnic" ∧
+    readsIn exStoreRep.readIds exModelA.tid = ["r4", "r5"] := by
+  decide +kernel
+
+example : (exStoreRep.dropKeep [((Strand.plus, [(50, 90), (100, 200)]), "transcript1.chr1.nnic")]).map
+        (fun r => (r.1.assignReads []).dumpR2T)
+      = some [("r7", "b"), ("r4", "transcript1.chr1.nnic"), ("r5", "transcript1.chr1.nnic")] := by
   decide +kernel
 
 /-- **chains_distinct_per_chromosome_full_witness.** Without the per-constructor hypothesis the clause is still false of the
